@@ -17,6 +17,7 @@ import (
 	"sync"
 	"sync/atomic"
 
+	"github.com/samber/lo"
 	"github.com/synnaxlabs/x/errors"
 )
 
@@ -295,6 +296,8 @@ func (l *LookupIndex[K, E, V]) Get(tx Tx, values ...V) ([]K, error) {
 	if err := l.populateErrWrapped(); err != nil {
 		return nil, err
 	}
+	// A value listed twice must not contribute its keys twice.
+	values = lo.Uniq(values)
 	var committed []K
 	if len(values) == 1 {
 		committed = l.getLocked(values[0])
@@ -553,6 +556,8 @@ func (s *SortedIndex[K, E, V]) Get(tx Tx, values ...V) ([]K, error) {
 	if err := s.populateErrWrapped(); err != nil {
 		return nil, err
 	}
+	// A value listed twice must not contribute its keys twice.
+	values = lo.Uniq(values)
 	var committed []K
 	if len(values) == 1 {
 		src := s.get(values[0])
